@@ -85,7 +85,7 @@ def unit_lincomb_impl(dt, pat, canary=None):
                 ctx.fail(st, 'no_raise', 'raises %s%r' % (lib.exc_name(r), r.fields.get('args')), info, replay=rp)
                 continue
             a, b, els, old, out = r
-            low = Lower(st.pc)
+            low = st.lower
             spec = VLin([(a, old[pat[0]]), (b, old[pat[1]])])
             if canary == 'sign':
                 spec = VLin([(a, old[pat[0]]), (-b, old[pat[1]])])
@@ -142,7 +142,7 @@ def unit_tensor_binary(meth, dt, pat):
                 ctx.fail(st, 'no_raise', 'raises %s%r' % (lib.exc_name(r), r.fields.get('args')), info, replay=rp)
                 continue
             els, old, out, a, b, ret = r
-            low = Lower(st.pc)
+            low = st.lower
             if meth == '_lincomb':
                 spec = VLin([(a, old[pat[0]]), (b, old[pat[1]])])
             elif meth == '_multiply':
@@ -211,7 +211,7 @@ def unit_tensor_nullary(meth, dt):
                 ctx.fail(st, 'no_raise', 'raises %s%r' % (lib.exc_name(r), r.fields.get('args')), info)
                 continue
             sb, x, old, ret = r
-            low = Lower(st.pc)
+            low = st.lower
             ok_obj = isinstance(ret, ip.Obj) and hasattr(ret, 'buf') and ret.fields.get('_LinearSpaceElement__space') is sb.space
             ctx.prove(st, 'post:returns an element of the space', ok_obj, info)
             if not ok_obj:
@@ -282,7 +282,7 @@ def unit_space_method(meth, field):
             bad_operand = bad_first or (not misuse and r2 == 'alien' and bmode != 'none')
             info = {'case': list(map(str, case)), 'field': field}
             for st, (status, r) in ctx.explore(path):
-                low = Lower(st.pc)
+                low = st.lower
                 if status == 'raise':
                     exc, els, old, asp = r
                     name = lib.exc_name(exc)
@@ -335,7 +335,7 @@ def unit_space_zero(field):
             ret = I.call(f, [asp.space], {}, fr)
             return ('ok', (asp, ret))
         for st, (status, (asp, ret)) in ctx.explore(path):
-            low = Lower(st.pc)
+            low = st.lower
             ctx.prove(st, 'post:value is zero whatever element() returned', lib.eq_goal(low, content(ret), VConst(0.0)), {})
     return Unit('space/zero/%s' % field, run, funcs=[SPACE + 'LinearSpace.zero'], config={'field': field})
 
@@ -349,21 +349,7 @@ def make_abstract_elem(asp):
     return mk
 
 
-BIN_TABLE = {
-    # name: (in-place?, element spec(x, o), scalar spec(x, s))   one = all-ones vector
-    '__add__': (False, lambda x, o: VLin([(1, x), (1, o)]), lambda x, s: VLin([(1, x), (s, VConst(1.0))])),
-    '__radd__': (False, lambda x, o: VLin([(1, x), (1, o)]), lambda x, s: VLin([(1, x), (s, VConst(1.0))])),
-    '__iadd__': (True, lambda x, o: VLin([(1, x), (1, o)]), lambda x, s: VLin([(1, x), (s, VConst(1.0))])),
-    '__sub__': (False, lambda x, o: VLin([(1, x), (-1, o)]), lambda x, s: VLin([(1, x), (-s, VConst(1.0))])),
-    '__rsub__': (False, lambda x, o: VLin([(-1, x), (1, o)]), lambda x, s: VLin([(-1, x), (s, VConst(1.0))])),
-    '__isub__': (True, lambda x, o: VLin([(1, x), (-1, o)]), lambda x, s: VLin([(1, x), (-s, VConst(1.0))])),
-    '__mul__': (False, lambda x, o: core.vmul(x, o), lambda x, s: VLin([(s, x)])),
-    '__rmul__': (False, lambda x, o: core.vmul(x, o), lambda x, s: VLin([(s, x)])),
-    '__imul__': (True, lambda x, o: core.vmul(x, o), lambda x, s: VLin([(s, x)])),
-    '__truediv__': (False, lambda x, o: core.vdiv(x, o), lambda x, s: VLin([(1 / core._sc(s), x)])),
-    '__rtruediv__': (False, lambda x, o: core.vdiv(o, x), lambda x, s: core.vdiv(VConst(s), x)),
-    '__itruediv__': (True, lambda x, o: core.vdiv(x, o), lambda x, s: VLin([(1 / core._sc(s), x)])),
-}
+BIN_TABLE = lib.BIN_TABLE
 
 
 def unit_elem_binary(dunder, field):
@@ -405,7 +391,7 @@ def unit_elem_binary(dunder, field):
             info = {'dunder': dunder, 'other': ok, 'field': field}
             valid = ok in ('self', 'elem', 'scalar') or (ok == 'badscalar' and field == 'complex')
             for st, (status, r) in ctx.explore(path):
-                low = Lower(st.pc)
+                low = st.lower
                 if status == 'raise':
                     exc, els, old = r
                     if valid:
@@ -475,7 +461,7 @@ def unit_elem_unary(meth, field):
                 return ('ok', (els, old, ret, a, b))
             info = {'method': meth, 'variant': var, 'field': field}
             for st, (status, r) in ctx.explore(path):
-                low = Lower(st.pc)
+                low = st.lower
                 if status == 'raise':
                     exc, els, old = r
                     if var == 'alien':
@@ -555,7 +541,7 @@ def unit_elem_pow(meth, field):
                     ctx.fail(st, 'no_raise', 'raises %s%r' % (lib.exc_name(r), r.fields.get('args')), info)
                     continue
                 x, y, old, ret = r
-                low = Lower(st.pc)
+                low = st.lower
                 if meth == '__ipow__':
                     ctx.prove(st, 'post:returns self', ret is x, info)
                 else:
